@@ -2,6 +2,7 @@ package main
 
 import (
 	"fmt"
+	"go/token"
 	"go/types"
 	"strings"
 
@@ -210,6 +211,182 @@ func (bo *bufOnce) mustConsume(h *ssa.Function, j int) bool {
 	return res
 }
 
+// ---------- hand-over: a buffer sent away on a channel belongs to the receiver ----------
+
+type progPoint struct {
+	b   *ssa.BasicBlock
+	idx int
+}
+
+func (pp progPoint) dominates(in ssa.Instruction) bool {
+	if pp.b == in.Block() {
+		return pp.idx <= instrIndex(in)
+	}
+	return pp.b.Dominates(in.Block())
+}
+
+// sendPoints: the points of f after which the buffer rooted at `root` has been sent on a channel (a plain send, or
+// the case of a select that sends it).
+func sendPoints(f *ssa.Function, root func(v ssa.Value) bool) []progPoint {
+	var out []progPoint
+	for _, b := range f.Blocks {
+		for i, in := range b.Instrs {
+			switch x := in.(type) {
+			case *ssa.Send:
+				if root(x.X) {
+					out = append(out, progPoint{b, i + 1})
+				}
+			case *ssa.Select:
+				for k, st := range x.States {
+					if st.Dir == types.SendOnly && st.Send != nil && root(st.Send) {
+						if cb := selectCaseBlock(x, k); cb != nil {
+							out = append(out, progPoint{cb, 0})
+						}
+					}
+				}
+			}
+		}
+	}
+	return out
+}
+
+// handsOverWhenNil: h returns one error, and it returns nil exactly on the paths on which it has sent parameter j on a
+// channel (peer.write: nil = queued for the writer, ErrCongested/EOF = not queued).
+func (bo *bufOnce) handsOverWhenNil(h *ssa.Function, j int) bool {
+	if h.Blocks == nil || j >= len(h.Params) || !carriesBuffer(h.Params[j].Type()) || h.Signature.Results().Len() != 1 {
+		return false
+	}
+	key := fmt.Sprintf("ho:%p/%d", h, j)
+	if v, ok := bo.memo[key]; ok {
+		return v
+	}
+	pa := h.Params[j]
+	pts := sendPoints(h, func(v ssa.Value) bool { return bufRoot(v, 0) == ssa.Value(pa) })
+	res := len(pts) > 0
+	if res {
+		after := map[*ssa.BasicBlock]bool{}
+		for _, pt := range pts {
+			for b := range reachableFrom(pt.b) {
+				after[b] = true
+			}
+			after[pt.b] = true
+		}
+		someNil := false
+		for _, ret := range returnsOf(h) {
+			rv := retResults(ret)
+			if len(rv) != 1 {
+				res = false
+				break
+			}
+			if isNilConst(rv[0]) {
+				dom := false
+				for _, pt := range pts {
+					if pt.dominates(ret) {
+						dom = true
+					}
+				}
+				if !dom {
+					res = false
+				}
+				someNil = true
+			} else if after[ret.Block()] {
+				res = false // a failure reported after the message was sent: the outcome does not tell
+			}
+		}
+		res = res && someNil
+	}
+	bo.memo[key] = res
+	return res
+}
+
+type handOver struct {
+	at      progPoint
+	pos     token.Pos
+	root    ssa.Value
+	condNil ssa.Value // when set, the hand-over happened only if this value (an error) is nil
+}
+
+func (bo *bufOnce) handOvers(f *ssa.Function) []handOver {
+	var out []handOver
+	for _, b := range f.Blocks {
+		for i, in := range b.Instrs {
+			switch x := in.(type) {
+			case *ssa.Send:
+				if carriesBuffer(x.X.Type()) {
+					out = append(out, handOver{progPoint{b, i + 1}, x.Pos(), bufRoot(x.X, 0), nil})
+				}
+			case *ssa.Select:
+				for k, st := range x.States {
+					if st.Dir == types.SendOnly && st.Send != nil && carriesBuffer(st.Send.Type()) {
+						if cb := selectCaseBlock(x, k); cb != nil {
+							out = append(out, handOver{progPoint{cb, 0}, st.Pos, bufRoot(st.Send, 0), nil})
+						}
+					}
+				}
+			case *ssa.Call:
+				h := x.Call.StaticCallee()
+				if h == nil || x.Call.IsInvoke() || h.Blocks == nil || !strings.HasPrefix(funcPkgPath(h), modPath) || len(x.Call.Args) != len(h.Params) {
+					continue
+				}
+				for j := range h.Params {
+					if bo.handsOverWhenNil(h, j) {
+						out = append(out, handOver{progPoint{b, i + 1}, x.Pos(), bufRoot(x.Call.Args[j], 0), x})
+					}
+				}
+			}
+		}
+	}
+	return out
+}
+
+// reachesAfterHandOver: some path leads from the hand-over to `to` that is consistent with the hand-over having
+// happened (edges on which its error result is known non-nil are not taken) and does not re-execute root's definition.
+func reachesAfterHandOver(ho handOver, to ssa.Instruction) bool {
+	def, _ := ho.root.(ssa.Instruction)
+	seen := map[*ssa.BasicBlock]bool{}
+	contradicts := func(iff *ssa.If, succ int) bool {
+		if ho.condNil == nil {
+			return false
+		}
+		g := Guard{Cond: iff.Cond, Pol: succ == 0}.norm()
+		if x, isNil, ok := nilFact(g); ok && x == ho.condNil && !isNil {
+			return true
+		}
+		if b, ok := g.Cond.(*ssa.BinOp); ok && b.Op == token.EQL && g.Pol {
+			// err == ErrCongested: err is not nil
+			if (b.X == ho.condNil && !isNilConst(b.Y)) || (b.Y == ho.condNil && !isNilConst(b.X)) {
+				return true
+			}
+		}
+		return false
+	}
+	var scan func(b *ssa.BasicBlock, idx int) bool
+	scan = func(b *ssa.BasicBlock, idx int) bool {
+		for _, in := range b.Instrs[idx:] {
+			if in == to {
+				return true
+			}
+			if def != nil && in == def {
+				return false
+			}
+		}
+		iff, _ := b.Instrs[len(b.Instrs)-1].(*ssa.If)
+		for si, s := range b.Succs {
+			if iff != nil && contradicts(iff, si) {
+				continue
+			}
+			if !seen[s] {
+				seen[s] = true
+				if scan(s, 0) {
+					return true
+				}
+			}
+		}
+		return false
+	}
+	return scan(ho.at.b, ho.at.idx)
+}
+
 // bufferOnce: in no function of the module is a buffer given back (PutBuffer, or a call that always gives it back)
 // at a point reachable from another place that gave the same buffer back.
 func bufferOnce(r *Report, rule string) {
@@ -241,9 +418,17 @@ func bufferOnce(r *Report, rule string) {
 			continue
 		}
 		r.Fn(f)
+		hos := bo.handOvers(f)
 		for _, e2 := range evs {
 			n++
 			var first ssa.Instruction
+			var handed *handOver
+			for i := range hos {
+				if hos[i].root == e2.root && reachesAfterHandOver(hos[i], e2.in) {
+					handed = &hos[i]
+					break
+				}
+			}
 			for _, e1 := range evs {
 				if e1.in == e2.in || e1.root != e2.root {
 					continue
@@ -261,7 +446,10 @@ func bufferOnce(r *Report, rule string) {
 			if first != nil {
 				msg = fmt.Sprintf("the buffer was already given back at %s: the pool now holds one backing array twice, two later GetBuffer calls share it, and a queued upload's payload (or a block being received) is overwritten by another before it is sent (stored)", r.P.Fset.Position(first.Pos()))
 			}
-			r.Check(first == nil, rule, fmt.Sprintf("%s/%s-gives-back-once", fname(f), what), e2.in.Pos(), "no other give-back of the same buffer reaches this one", msg)
+			if handed != nil {
+				msg = fmt.Sprintf("the buffer is given back to the pool although the message that carries it was handed on at %s (a send on a channel, or a call that returns nil exactly when it has queued the message): the pool hands the buffer out again while the message is still waiting to be written, and the peer receives whatever the next user put there instead of the requested range", r.P.Fset.Position(handed.pos))
+			}
+			r.Check(first == nil && handed == nil, rule, fmt.Sprintf("%s/%s-gives-back-once", fname(f), what), e2.in.Pos(), "no other give-back of the same buffer, and no hand-over of it to another goroutine, reaches this one", msg)
 		}
 	}
 	r.Sentinel(rule+".give-back", n, 4)
